@@ -10,6 +10,7 @@ use elf::file::Class;
 use elf::parse::{ParseAt, ParseError, ParsingIterator, ParsingTable};
 
 mod alloc_count;
+mod gen_tables;
 mod ops;
 mod show;
 use show::*;
@@ -286,6 +287,16 @@ pub fn run_case(o: W, g: &[Vec<Tok>]) -> std::fmt::Result {
         ("utf8", 2) => write!(o, "{}", core::str::from_utf8(h[1].b()).is_ok() as u8),
         ("sysvhash", 2) => write!(o, "{}", elf::hash::sysv_hash(h[1].b())),
         ("gnuhash", 2) => write!(o, "{}", elf::hash::gnu_hash(h[1].b())),
+        ("const", 2) => gen_tables::const_by_name(o, h[1].w()),
+        ("layout", 2) => gen_tables::layout_by_name(o, h[1].w()),
+        ("tostr", 4) | ("tostring", 4) => {
+            let v = if h[2].w() == "m" { -(h[3].n() as i128) } else { h[3].n() as i128 };
+            if h[0].w() == "tostr" {
+                gen_tables::to_str(o, h[1].w(), v)
+            } else {
+                gen_tables::to_string(o, h[1].w(), v)
+            }
+        }
         ("ident", 3) => with_fam!(h[1].w(), E, ops::run_ident::<E>(o, h[2].b())),
         ("bytes", 3) => with_fam!(h[1].w(), E, ops::run_bytes::<E>(o, h[2].b(), &g[1..])),
         ("notes", 5) => {
